@@ -897,4 +897,13 @@ def rule_infer(ctx):
     return r
 
 
-RULES = [rule_infer, rule_topo, rule_linear, rule_ssaid, rule_edge, rule_count]
+def rule_keys(ctx):
+    """Shared with C02-KEYS (seed C10_7): 'a tree converted to a path and back yields the same tree' for the tree as it
+    is *now* — a path memoised in a per-node entry under a key no getter defines survives every restructuring below
+    that node."""
+    from .c02 import rule_keys as src
+
+    return C.reuse_rule(ctx, src, "C02-KEYS", "C10-KEYS", "no ad-hoc cached conversions in per-node entries", lambda i: True, 8)
+
+
+RULES = [rule_keys, rule_infer, rule_topo, rule_linear, rule_ssaid, rule_edge, rule_count]
